@@ -9,7 +9,7 @@ open Drx
 
 -- the kernel cannot unfold structural recursion over the nested inductive `Node` by computation; keep the unifier from
 -- relying on it (all rewriting goes through the equation lemmas)
-attribute [local irreducible] lingo lingoStrs lingoStrsButLast lingoStmts lingoPairs afterLingo afterLingoList afterLingoButLast
+attribute [local irreducible] lingo lingoRight lingoStrs lingoStrsButLast lingoStmts lingoPairs afterLingo afterLingoList afterLingoButLast
   js jsStrs jsStmts afterJs afterJsList
 
 /-! ### afterJs is the identity -/
@@ -93,6 +93,27 @@ theorem pyGet_neg_one (l : List α) : pyGet l (-1) = match l.getLast? with | som
 theorem pyGet_afterLingoButLast (l : List Node) : pyGet (afterLingoButLast l) (-1) = pyGet l (-1) := by
   rw [pyGet_neg_one, pyGet_neg_one, afterLingoButLast_getLast]
 
+theorem afterLingo_isNone (x : Node) : (afterLingo x).isNone = x.isNone := by
+  cases x <;> simp [afterLingo, Node.isNone]
+  rename_i n p ps up it wr
+  cases ps <;> simp [afterLingo, Node.isNone]
+
+theorem afterLingo_symName (x : Node) : (afterLingo x).symName? = x.symName? := by
+  cases x <;> simp [afterLingo, Node.symName?]
+  rename_i n p ps up it wr
+  cases ps <;> simp [afterLingo, Node.symName?]
+
+theorem lingoStrsButLast_cons (x : Node) (l : List Node) (ind : Nat) :
+    lingoStrsButLast (x :: l) ind = if l.isEmpty then .ok [] else do
+      let t ← lingo false x ind
+      let ts ← lingoStrsButLast l ind
+      pure (t.str :: ts) := by
+  cases l <;> simp [lingoStrsButLast]
+
+theorem afterLingoButLast_cons (x : Node) (l : List Node) :
+    afterLingoButLast (x :: l) = if l.isEmpty then [x] else afterLingo x :: afterLingoButLast l := by
+  cases l <;> simp [afterLingoButLast]
+
 theorem clearParen_lingo_true (x : Node) (ind : Nat) : lingo true (clearParen x) ind = lingo true x ind := by
   cases x <;> simp [clearParen]
   rename_i name pos params up it wr
@@ -111,9 +132,7 @@ mutual
     | .binary op p l r, np, ind => by simp [afterLingo, lingo, lingo_afterLingo l, lingo_afterLingo r]
     | .spAssign p l r m, np, ind => by simp [afterLingo, lingo, lingo_afterLingo l, lingo_afterLingo r]
     | .strOp k p a b c, np, ind => by
-      have hb := lingo_afterLingo b false 0
-      cases b <;> simp [afterLingo, lingo, lingo_afterLingo a, lingo_afterLingo c] at hb ⊢
-      all_goals (trace_state; sorry)
+      simp [afterLingo, lingo, lingo_afterLingo a, lingo_afterLingo b, lingo_afterLingo c, afterLingo_isNone]
     | .unaryStr op p t x, np, ind => by simp [afterLingo, lingo, lingo_afterLingo x]
     | .propAcc p o pr, np, ind => by simp [afterLingo, lingo, lingo_afterLingo o]
     | .keyAcc .., np, ind => by simp [afterLingo]
@@ -142,9 +161,10 @@ mutual
       | _ => simp [afterLingo, lingo]
     | .callMethod n p o ps, np, ind => by simp [afterLingo, lingo, lingo_afterLingo o, lingo_afterLingo ps]
     | .repeat_ p e c l t s v sg, np, ind => by
-      simp only [afterLingo, lingo, lingo_afterLingo c, lingoStmts_afterLingoList l]
-      trace_state
-      sorry
+      simp only [afterLingo, lingo, lingo_afterLingo c, lingoStmts_afterLingoList l, lingoRight_afterLingo c]
+      by_cases ht : t = S "while"
+      · simp [ht]
+      · simp [ht, lingo_afterLingo s]
     | .ifThen p c a b, np, ind => by
       simp [afterLingo, lingo, lingo_afterLingo c, lingoStmts_afterLingoList a, lingoStmts_afterLingoList b, afterLingoList_isEmpty]
     | .jump .., np, ind => by simp [afterLingo]
@@ -153,9 +173,7 @@ mutual
   theorem lingoStrs_afterLingoList : ∀ (l : List Node) (gv : Bool) (ind : Nat), lingoStrs gv (afterLingoList l) ind = lingoStrs gv l ind
     | [], gv, ind => by simp [afterLingoList]
     | [x], gv, ind => by
-      have hx := lingo_afterLingo x false ind
-      cases gv <;> cases x <;> simp [afterLingoList, lingoStrs, afterLingo] at hx ⊢
-      all_goals (trace_state; sorry)
+      simp [afterLingoList, lingoStrs, lingo_afterLingo x, afterLingo_symName]
     | x :: y :: r, gv, ind => by
       have := lingoStrs_afterLingoList (y :: r) gv ind
       simp only [afterLingoList] at *
@@ -164,10 +182,35 @@ mutual
     | [], ind => by simp [afterLingoButLast]
     | [x], ind => by simp [afterLingoButLast, lingoStrsButLast]
     | x :: y :: r, ind => by
-      have := lingoStrsButLast_afterLingoButLast (y :: r) ind
-      simp only [afterLingoButLast]
-      trace_state
-      sorry
+      have ih := lingoStrsButLast_afterLingoButLast (y :: r) ind
+      rw [afterLingoButLast_cons, lingoStrsButLast_cons x]
+      simp only [List.isEmpty_cons, Bool.false_eq_true, if_false]
+      rw [lingoStrsButLast_cons, afterLingoButLast_isEmpty, ih, lingo_afterLingo x]
+      simp
+  theorem lingoRight_afterLingo : ∀ (c : Node), lingoRight (afterLingo c) = lingoRight c
+    | .binary op p l r => by simp [afterLingo, lingoRight, lingo_afterLingo r]
+    | .callFn name p params up it wr => by cases params <;> simp [afterLingo, lingoRight]
+    | .none => by simp [afterLingo, lingoRight]
+    | .leaf .. => by simp [afterLingo, lingoRight]
+    | .sym .. => by simp [afterLingo, lingoRight]
+    | .unary .. => by simp [afterLingo, lingoRight]
+    | .spAssign .. => by simp [afterLingo, lingoRight]
+    | .strOp .. => by simp [afterLingo, lingoRight]
+    | .unaryStr .. => by simp [afterLingo, lingoRight]
+    | .propAcc .. => by simp [afterLingo, lingoRight]
+    | .keyAcc .. => by simp [afterLingo, lingoRight]
+    | .menuItemAcc .. => by simp [afterLingo, lingoRight]
+    | .menuItemsAcc .. => by simp [afterLingo, lingoRight]
+    | .loadList .. => by simp [afterLingo, lingoRight]
+    | .toList .. => by simp [afterLingo, lingoRight]
+    | .toDict .. => by simp [afterLingo, lingoRight]
+    | .stmt .. => by simp [afterLingo, lingoRight]
+    | .callMethod .. => by simp [afterLingo, lingoRight]
+    | .repeat_ .. => by simp [afterLingo, lingoRight]
+    | .ifThen .. => by simp [afterLingo, lingoRight]
+    | .jump .. => by simp [afterLingo, lingoRight]
+    | .jz .. => by simp [afterLingo, lingoRight]
+    | .tell .. => by simp [afterLingo, lingoRight]
   theorem lingoStmts_afterLingoList : ∀ (l : List Node) (ind : Nat), lingoStmts (afterLingoList l) ind = lingoStmts l ind
     | [], ind => by simp [afterLingoList]
     | x :: r, ind => by simp [afterLingoList, lingoStmts, lingo_afterLingo x, lingoStmts_afterLingoList r]
